@@ -81,6 +81,15 @@ package server
 //@   ghost used *x509.Certificate = nil
 //@   at call Add#1: assert the-parsed-leaf-is-preferred: (cert.Leaf != nil ==> leaf == cert.Leaf) && callarg1 == -60000000000
 //@   at call Add#1: ghost used := leaf
+//@   ghost parses int = 0
+//@   ghost parsed0 *x509.Certificate = nil
+//@   ghost perr error = nil
+//@   at call ParseCertificate#1: assert only-a-missing-leaf-is-parsed-from-the-first-chain-entry: cert.Leaf == nil && len(cert.Certificate) > 0 && callarg0 == cert.Certificate[0] && parses == 0
+//@   at after call ParseCertificate#1: ghost parsed0 := callresult0
+//@   at after call ParseCertificate#1: ghost perr := callresult1
+//@   at after call ParseCertificate#1: ghost parses := parses + 1
+//@   ensures local-a-leaf-that-parses-decides-the-ttl: (parses == 1 && perr == nil) ==> used == parsed0
+//@   ensures local-a-missing-leaf-is-parsed-when-the-chain-has-an-entry: (cert != nil && cert.Leaf == nil && len(cert.Certificate) > 0) ==> parses == 1
 //@   ensures always-positive-and-capped: 0 < r && r <= keylessPositiveTTL
 //@   ensures never-past-expiry-minus-skew: (cert != nil && cert.Leaf != nil && remainingAfterSkew(cert.Leaf, now) > 0) ==> r <= remainingAfterSkew(cert.Leaf, now)
 //@   ensures expired-certificate-gets-the-minimum: (cert != nil && cert.Leaf != nil && remainingAfterSkew(cert.Leaf, now) <= 0) ==> r == 1000000000
